@@ -384,6 +384,19 @@ def main():
         thr_stats, _ = hcheck.run_shards(chk, exe_thr, ["--draws", str(150000 if quick else 3000000), "--threads", "8"], 3 if quick else 16, timeout=900)
         chk.coverage["thread_invariance"] = thr_stats
         chk.require_nonzero(thread_values_compared=thr_stats.get("values_compared"))
+        # the same harness under ThreadSanitizer: a mutable cache inside a shared const table object is a data race whether or
+        # not it produced a wrong value in this run (e.g. a "last temperature" memo in the recombination rates)
+        import tsan_classify
+        exe_thr_tsan = common.build_harness("c18_threads", "tsan")
+        rd = chk.rundir()
+        tenv = {"TSAN_OPTIONS": "halt_on_error=0:report_signal_unsafe=0:log_path=%s/tsan.log:exitcode=0" % rd}
+        tst, _ = hcheck.run_shards(chk, exe_thr_tsan, ["--draws", str(4000 if quick else 60000), "--threads", "4"], 2 if quick else 6, timeout=1800, env=tenv, max_workers=2)
+        reports = tsan_classify.classify_dir(rd)
+        chk.coverage["thread_invariance_tsan"] = dict(values=tst.get("values_compared", 0), reports=len(reports))
+        for rep in reports:
+            if not rep["benign"]:
+                chk.violation("tsan/" + rep["key"], rep["summary"], {"report": rep["text"][:4000]})
+        chk.require_nonzero(tsan_values=tst.get("values_compared"))
     except common.BuildError as e:
         chk.inconclusive_because(str(e))
     chk.require_nonzero(
